@@ -809,7 +809,8 @@ func main() {
 		{"sregister", "Caller", "sregister"}, {"remove", "Caller", "remove"}, {"Remove", "Caller", "Remove"},
 		{"Clear", "Caller", "Clear"}, {"ClearAll", "Caller", "ClearAll"}, {"AddTmp", "Caller", "AddTmp"},
 		{"Add", "Caller", "Add"}, {"AddBg", "Caller", "AddBg"}, {"AddHandler", "Caller", "AddHandler"},
-		{"cuidToID", "Caller", "cuidToID"}, {"recoverHandlerPanic", "", "recoverHandlerPanic"}} {
+		{"cuidToID", "Caller", "cuidToID"}, {"recoverHandlerPanic", "", "recoverHandlerPanic"},
+		{"Pong", "Commands", "Cmd_Pong"}, {"Ping", "Commands", "Cmd_Ping"}, {"handlePING", "", "handlePING"}} {
 		p.skeleton(sk, f[0], f[1], f[2])
 	}
 	cg := load(filepath.Join(*repo, "internal/ctxgroup"))
